@@ -97,7 +97,8 @@ class Aggregate:
 
 def write(prop, tier, seed, level, agg, selftest, wall, batch_wall=None, error=None, violations=0,
           known=(), minimisation=(), not_run=0, signatures_seen=(), regression_replays=0):
-    os.makedirs(os.path.join(HERE, "evidence"), exist_ok=True)
+    out = os.environ.get("VERIF_OUT") or HERE  # VERIF_OUT: runs against seeded changes must not overwrite evidence/
+    os.makedirs(os.path.join(out, "evidence"), exist_ok=True)
     cov = {
         "evaluations": agg.runs if agg else 0,
         "distinct_nontrivial": len(agg.shapes_nontrivial) if agg else 0,
@@ -148,7 +149,7 @@ def write(prop, tier, seed, level, agg, selftest, wall, batch_wall=None, error=N
         "wall_s": round(wall, 1),
         "violations": int(violations),
     }
-    path = os.path.join(HERE, "evidence", f"{prop}.json")
+    path = os.path.join(out, "evidence", f"{prop}.json")
     with open(path, "w") as f:
         json.dump(doc, f, indent=1, ensure_ascii=False, default=str)
     return path
